@@ -513,6 +513,9 @@ def run(ctx: Ctx) -> None:
         from .common import share_rules
         share_rules(ctx, "C09", "C03.R17", ["C09.R2"], "a path produced during the analysis is registered with the return signature of its producer - the key the store records: a reader "
                     "gets the same signature whether producer and reader are evaluated together or one after the other (prior sequence of evaluations)")
+    rep.rule("C03.R21", "the variables of the interactive session are consulted only when the code being resolved lives in `__main__` / `__global__` (independence of the prior history of the process)")
+    n21 = session_globals_only_for_main(ctx, "C03.R21")
+    rep.floor("C03.R21", n21, 2)
     rep.rule("C03.R19", "no name taken from the BODY of an analysed function is ever imported as a module: what `importlib.import_module(<name>)` finds depends on sys.path - the working "
                         "directory first - so a directory that happens to be called like a lambda parameter or a builtin would enter the signature")
     n19 = no_import_by_body_name(ctx, "C03.R19")
@@ -716,6 +719,44 @@ def _sanitised(ctx: Ctx, f: Func, node: ast.AST) -> bool:
             return True
         break
     return False
+
+
+def session_globals_only_for_main(ctx: Ctx, rule: str) -> int:
+    """The variables of the interactive session (`gctx.start_globals`: the namespace of the notebook / of `__main__`) are consulted only for code that lives in that namespace:
+    every read of them in the resolver is unreachable when the module being resolved is not `__main__` / `__global__`.  Else an unresolved name of a LIBRARY function (a
+    lambda parameter, a builtin) is resolved against whatever the user defined in earlier cells: the signature depends on the history of the session."""
+    from ..propdom import feasible_path
+    rep = ctx.report
+    prog = ctx.prog
+    n = 0
+
+    def atom(e: ast.AST) -> Optional[str]:
+        if isinstance(e, ast.Compare) and len(e.ops) == 1 and isinstance(e.ops[0], (ast.In, ast.NotIn)) and isinstance(e.comparators[0], (ast.Tuple, ast.List, ast.Set)):
+            cs = {c.value for c in e.comparators[0].elts if isinstance(c, ast.Constant)}
+            if "__main__" in cs and cs <= {"__main__", "__global__"}:
+                return ("" if isinstance(e.ops[0], ast.In) else "!") + "<session-scope>"
+        if isinstance(e, ast.Compare) and len(e.ops) == 1 and isinstance(e.ops[0], (ast.Eq, ast.NotEq)) and isinstance(e.comparators[0], ast.Constant) and e.comparators[0].value == "__main__":
+            return ("" if isinstance(e.ops[0], ast.Eq) else "!") + "<session-scope>"
+        return None
+    for f in prog.funcs.values():
+        if f.module.name != "dds._retrieve_objects":
+            continue
+        reads = [x for x in f.own_nodes() if isinstance(x, ast.Attribute) and x.attr == "start_globals" and isinstance(x.ctx, ast.Load)]
+        if not reads:
+            continue
+        cfg = cfg_of(f)
+        for x in reads:
+            n += 1
+            st = prog.enclosing_stmt(f.module, x)
+            desc = f"{f.name}: `{unparse(x, 40)}` is read only for names of the session's own namespace"
+            p_ = feasible_path(prog, f, cfg, cfg.nodes_of(st), {"<session-scope>": False}, atom) if any(atom(y) for y in f.own_nodes()) else [cfg.entry]
+            if p_ is None:
+                rep.ok(rule, f.qname, desc, f.loc(x))
+            else:
+                rep.bad(rule, f.qname, desc, f.loc(x), [f"{f.loc(x)}: reached also when the module being resolved is not `__main__` / `__global__`",
+                        "in a notebook, `row = 5` in one cell changes the signature of an accepted library function whose lambda has a parameter `row`; `del row` changes it back: the "
+                        "signature of the same source depends on the cells run before"], "session-globals-for-library", what="names of library code are resolved against the variables of the interactive session")
+    return n
 
 
 def no_import_by_body_name(ctx: Ctx, rule: str) -> int:
